@@ -2,6 +2,7 @@ pub mod c01;
 pub mod c02;
 pub mod c03;
 pub mod c04;
+pub mod c05;
 
 use symcore::Config;
 
@@ -12,6 +13,7 @@ pub fn instances(prop: &str, tier: &str, seed: u64) -> Vec<String> {
         "C02" => c02::instances(tier),
         "C03" => c03::instances(tier),
         "C04" => c04::instances(tier),
+        "C05" => c05::instances(tier),
         _ => vec![],
     }
 }
@@ -24,6 +26,7 @@ pub fn body(prop: &str, inst: &str) {
         "C02" => c02::body(inst),
         "C03" => c03::body(inst),
         "C04" => c04::body(inst),
+        "C05" => c05::body(inst),
         _ => panic!("unknown property {}", prop),
     }
 }
